@@ -439,7 +439,8 @@ class InterpCore(object):
             allv.update(kb)
             return ListV([allv[k] for k in keys], "set")
         if isinstance(a, Unknown) or isinstance(b, Unknown):
-            return Unknown("arith")
+            src = a if isinstance(a, Unknown) else b
+            return Unknown(src.tag if src.tag.endswith("+arith") else src.tag + "+arith")
         def _container(v):
             return isinstance(v, (ListV, DictV, SeqV)) or type(v).__name__ in ("SetAccV", "NTV", "LoopDictV")
         if _container(a) and _container(b):
